@@ -7,7 +7,7 @@
 (*   [k  |-> "R" | "S" | "V" | "O",   radial / status / VCP / other        *)
 (*    ty |-> message type code, el |-> elevation number (R),               *)
 (*    vcp |-> VCP number of its volume block or 0 (R),                      *)
-(*    tm |-> collection time: 0 = the epoch itself, 1 = a quarter second   *)
+(*    tm |-> collection time: 0 = the epoch itself, 1 = one millisecond     *)
 (*           after it, k >= 2 = k seconds into the day,                    *)
 (*    ps |-> set of moment products it carries (R)]                         *)
 (* Message indices are 0-based in the summary, as in the code.             *)
